@@ -46,25 +46,9 @@ func init() {
 		})
 		ufFixedLen[name] = h.l
 	}
-	// strings.ToLower
-	DeclareUF("islower", []Sort{SStr}, SBool, func(a *Term) []*Term {
-		x := a.Args[0]
-		var out []*Term
-		out = append(out, Implies(a, Eq(lowerT(x), x)))
-		if x.Op == "str.++" {
-			var ps []*Term
-			for _, p := range x.Args {
-				ps = append(ps, isLowerT(p))
-			}
-			out = append(out, Eq(a, And(ps...)))
-		}
-		if x.Op == "str.substr" {
-			out = append(out, Implies(isLowerT(x.Args[0]), a))
-		}
-		return out
-	})
+	// strings.ToLower (ASCII-exact: a string without upper-case ASCII letters and without bytes >= 0x80 is its own lower case)
 	DeclareUF("lower", []Sort{SStr}, SStr, func(a *Term) []*Term {
-		return []*Term{Eq(Len(a), Len(a.Args[0])), isLowerT(a), Implies(isLowerT(a.Args[0]), Eq(a, a.Args[0]))}
+		return []*Term{Eq(Len(a), Len(a.Args[0])), noUpperT(a), Implies(isLowerT(a.Args[0]), Eq(a, a.Args[0]))}
 	})
 	DeclareUF("rnd", []Sort{SInt, SInt, SInt}, SInt, func(a *Term) []*Term {
 		return []*Term{Implies(Lt(MkI(0), a.Args[2]), And(Le(MkI(0), a), Lt(a, a.Args[2])))}
@@ -319,14 +303,46 @@ func lowerT(x *Term) *Term {
 	return App("lower", x)
 }
 
+const reNoUpper = `(re.* (re.union (re.range "\u{0}" "@") (re.range "[" "\u{7f}")))`
+const reNoUpperAny = `(re.* (re.union (re.range "\u{0}" "@") (re.range "[" "\u{ff}")))`
+
+func goNoUpperASCII(s string) bool {
+	for i := 0; i < len(s); i++ {
+		if s[i] >= 'A' && s[i] <= 'Z' || s[i] >= 0x80 {
+			return false
+		}
+	}
+	return true
+}
+
+// isLowerT: x is pure ASCII without upper-case letters (then strings.ToLower(x) == x).
 func isLowerT(x *Term) *Term {
 	if x.IsConst() {
-		return MkBool(strings.ToLower(x.SV) == x.SV)
+		return MkBool(goNoUpperASCII(x.SV))
 	}
-	if x.Op == "uf" && (x.SV == "lower" || x.SV == "hex" || x.SV == "dec" || x.SV == "b32enc") {
+	if x.Op == "uf" && (x.SV == "hex" || x.SV == "dec" || x.SV == "b32enc") {
 		return TTrue
 	}
-	return App("islower", x)
+	if x.Op == "str.++" {
+		var ps []*Term
+		for _, p := range x.Args {
+			ps = append(ps, isLowerT(p))
+		}
+		return And(ps...)
+	}
+	return InRe(x, reNoUpper, goNoUpperASCII)
+}
+
+// noUpperT: x contains no upper-case ASCII letter (what ToLower guarantees about its result).
+func noUpperT(x *Term) *Term {
+	return InRe(x, reNoUpperAny, func(s string) bool {
+		for i := 0; i < len(s); i++ {
+			if s[i] >= 'A' && s[i] <= 'Z' {
+				return false
+			}
+		}
+		return true
+	})
 }
 
 func decT(t *Term) *Term {
